@@ -130,16 +130,25 @@ fn directed_programs() -> Vec<(String, Vec<Op>, u64)> {
 
 fn run(cfg: &RunCfg, rep: &mut Report) {
     install_hook();
+    // The deepest configuration (both profiles at depth 4 / hole programs of length 6) takes about
+    // 2.6 h on 16 cores; it was run on the final tree (tools/thorough_evidence/C05.json) and stays
+    // available with VCHECK_C05_DEEP=1. The default thorough tier goes as deep in the release
+    // profile, keeps the checked profile at the quick depth, and stops hole programs at length 5.
+    let deep = std::env::var("VCHECK_C05_DEEP").is_ok();
     let plans: Vec<(&[i64], u8, u8, u8)> = match cfg.tier {
         Tier::Quick => vec![(WORDS_QUICK, 3, 2, 1)],
+        Tier::Thorough if cfg.checked_profile && !deep => vec![(WORDS_QUICK, 3, 2, 1)],
         Tier::Thorough => vec![(WORDS_FULL, 4, 3, 2)],
     };
-    let plen = cfg.tier.pick(4, 6);
-    rep.bound_completed = format!(
-        "VMGRAPH: {}; hole programs of length <= {plen}; {} directed deep programs",
-        plans.iter().map(|(w, ds, db, dr)| format!("{} push constants, depth {ds} (small) / {db} (at-limit stack, memory) / {dr} (at-limit repeat stack)", w.len())).collect::<Vec<_>>().join("; "),
-        directed_programs().len()
-    );
+    let plen = if deep { 6 } else { cfg.tier.pick(4, 5) };
+    let describe = |w: &[i64], ds: u8, db: u8, dr: u8| format!("{} push constants, depth {ds} (small) / {db} (at-limit stack, memory) / {dr} (at-limit repeat stack)", w.len());
+    // (the same text from every worker of either profile: the parent keeps the first one it merges)
+    let graph = match (cfg.tier, deep) {
+        (Tier::Quick, _) => format!("{} in both arithmetic profiles", describe(WORDS_QUICK, 3, 2, 1)),
+        (Tier::Thorough, true) => format!("{} in both arithmetic profiles (VCHECK_C05_DEEP)", describe(WORDS_FULL, 4, 3, 2)),
+        (Tier::Thorough, false) => format!("release profile: {}; checked profile: {}", describe(WORDS_FULL, 4, 3, 2), describe(WORDS_QUICK, 3, 2, 1)),
+    };
+    rep.bound_completed = format!("VMGRAPH: {graph}; hole programs of length <= {plen} (both profiles); {} directed deep programs", directed_programs().len());
     let t0 = std::time::Instant::now();
     for env in envs() {
         for (words, ds, db, dr) in &plans {
